@@ -64,6 +64,13 @@ def check_c09(prop, tier):
             res.violation("a faulted snapshot package was not handled as specified (%d lines): %s" % (s["bad"], json.dumps({k: bad.get(k) for k in ("f", "pos", "arg", "res", "same", "trunc")})),
                           {"driver": "snap", "content": cs[bad.get("pk", 0)], "fault": {k: bad.get(k) for k in ("f", "pos", "arg", "trunc", "res", "same", "got")},
                            "package_text": pkg[0]["text"] if pkg else None})
+        res.add(faults_that_must_be_rejected=s["musterr"])
+        if s["drift"] and not res.violations:
+            dl = read_trace_lines(h["trace"])[s["firstdrift"] - 1]
+            res.downgrade("%d faulted packages are not handled as the model of the pinned code says (restore ok <=> stored checksum = SHA-256 of the content JSON; re-encodings still restore), first: %s"
+                          % (s["drift"], json.dumps({k: dl.get(k) for k in ("f", "pos", "arg", "res", "same")})),
+                          s["faults"], s["musterr"],
+                          "every enumerated fault judged on the text alone (generic JSON parse): not JSON / other version / checksum or content no longer the original's => error; ok => same content; every prefix => error")
         for l in read_trace_lines(h["trace"])[1:4]:
             res.sample({k: l.get(k) for k in ("f", "pos", "arg", "res", "same")})
         res.assumptions += ["SHA-256 modelled as an injective function (collision resistance)", "byte faults enumerated at every offset (stride 1-3 for the larger contents): substitution by 3 bytes incl. a non-ASCII lead byte, deletion, 3 insertions, every truncation point"]
